@@ -845,6 +845,73 @@ func runC12(c *core.Ctx) core.Meta {
 		}
 	}
 
+	// ---------------- R12.12 a cached device address stays in the process that allocated it ----------------
+	st12 := c.Rule("R12.12", "device addresses are virtual addresses of one process (every process starts allocating at the same address): where the driver caches the address it allocated for an object (a map from the object to a Ptr that is filled with the result of AllocateMemory), the key of every lookup and update carries the process ID of the context that allocated it; otherwise a second process is handed an address of the first one, which in its own address space names unrelated data", 1)
+	{
+		nSites := 0
+		for _, fn := range pd.Funcs {
+			var allocs []ssa.Value
+			for _, b := range fn.Blocks {
+				for _, in := range b.Instrs {
+					if call, ok := in.(*ssa.Call); ok {
+						if cal := call.Call.StaticCallee(); cal != nil && cal.Name() == "AllocateMemory" {
+							allocs = append(allocs, call)
+						}
+					}
+				}
+			}
+			if len(allocs) == 0 {
+				continue
+			}
+			isAlloc := func(v ssa.Value) bool {
+				for i := 0; i < 4; i++ {
+					for _, a := range allocs {
+						if v == a {
+							return true
+						}
+					}
+					switch t := v.(type) {
+					case *ssa.Phi:
+						for _, e := range t.Edges {
+							for _, a := range allocs {
+								if e == a {
+									return true
+								}
+							}
+						}
+						return false
+					case *ssa.ChangeType:
+						v = t.X
+					default:
+						return false
+					}
+				}
+				return false
+			}
+			for _, b := range fn.Blocks {
+				for _, in := range b.Instrs {
+					mu, ok := in.(*ssa.MapUpdate)
+					if !ok || !isAlloc(mu.Value) {
+						continue
+					}
+					nSites++
+					st12.Instances++
+					c.MarkAnalysed(fn)
+					kp := prov.Of(mu.Key)
+					okK := strings.Contains(kp, ".pid")
+					st12.Ob(okK)
+					st12.Sample("%s caches an allocated address under %s", core.FuncName(fn), short(kp))
+					if !okK {
+						c.ReportAt("R12.12", fn, mu.Pos(), "address-cache-key-without-pid", core.FuncName(fn)+" caches the device address it allocated under the key "+short(kp)+", which does not carry the allocating context's process ID: a launch from another process reuses the address although it belongs to the first process's address space (the kernel then fetches that process's own data as code)")
+					}
+				}
+			}
+		}
+		if nSites == 0 {
+			c.Report(core.Finding{Rule: "R12.12", Kind: "floor", Pkg: driverPkg, Func: "-", Detail: "cache-sites", Msg: "no cache of allocated device addresses found, 1 confirmed by hand"})
+		}
+	}
+
 	// ---------------- R12.10 thread-shared fields, discovered (c12shared.go) ----------------
 	checkSharedFields(c, pd)
 
